@@ -108,27 +108,27 @@ theorem default_bucket_bytes (a : Int) (ha : a ≠ 0) :
   have : Msg.lbl Iana.HeaderParameterAlg = Label.int 1 := rfl
   simp [hdrBytes, encodeCMap, CMap.toCbor, cmapPairs, toCbor, this, Label.toCbor]
 
-/-- **COSE_Sign1 / COSE_Mac0 produced with default headers are accepted back** (tagged form): the decoder
-    returns the very protected bytes, payload bytes and signature/tag that were produced, the payload field holds
-    the original bytes, and verification succeeds with any `check` that accepts what `auth` makes. -/
-theorem auth4_roundtrip (k : Kind) (hk : k = .sign1 ∨ k = .mac0) (payload ext : Option Bytes) (unprot : Hdr)
+/-- the general form: any payload value `pv` whose wire form is `payload` and which a decoder in mode `mode` reads
+    back as `pv'` (raw bytes, pre-encoded CBOR, or a typed value) -/
+theorem auth4_roundtrip_gen (k : Kind) (hk : k = .sign1 ∨ k = .mac0) (pv pv' : PVal) (mode : PMode) (payload ext : Option Bytes) (unprot : Hdr)
     (key vkey : KeyView) (auth : Bytes → Res Bytes) (check : Bytes → Bytes → Res Unit)
     (hcorr : SigCorrect auth check) (hvk : vkey.alg = key.alg) (ha : key.alg ≠ 0)
     (har : -2147483648 ≤ key.alg ∧ key.alg ≤ 2147483647)
-    (m1 : Msg) (h : produceAuth ⟨k, none, unprot, .bytes payload, none⟩ key auth ext = .ok m1)
+    (hpw : payloadToWire pv = .ok payload) (hpf : payloadFromWire mode payload (zeroPayload mode) = .ok pv')
+    (m1 : Msg) (h : produceAuth ⟨k, none, unprot, pv, none⟩ key auth ext = .ok m1)
     (w : Wire) (hw : m1.mm = some w) (u : Cbor) (hu : hdrCbor w.unprot = some u)
     (u' : Cbor) (heq : encode u' = encode u) (huw : WF u')
     (hud : depth u' + 2 < maxNesting) (uh : Hdr) (huf : hdrField u' = .ok uh)
     (hpl : ∀ x, payload = some x → x.length < two64) (hsl : ∀ x, w.auth = some x → x.length < two64) :
-    ∃ bytes m2 w2, marshal k w = some bytes ∧ unmarshal k .raw bytes = .ok m2 ∧ m2.mm = some w2 ∧
+    ∃ bytes m2 w2, marshal k w = some bytes ∧ unmarshal k mode bytes = .ok m2 ∧ m2.mm = some w2 ∧
       w2.prot = w.prot ∧ w2.payload = payload ∧ w2.auth = w.auth ∧
-      m2.payload = .bytes (nonEmpty payload) ∧
+      m2.payload = pv' ∧
       verifyAuth m2 vkey check ext = .ok () ∧ m2.unprot = uh := by
   -- unfold production
   unfold produceAuth at h
   have hfp : fillProtected none key = .ok [(Msg.lbl Iana.HeaderParameterAlg, .int .alg key.alg)] :=
     Cose.Props.C05.default_protected_records_alg key ha
-  simp only [hfp, default_bucket_bytes key.alg ha, payloadToWire] at h
+  simp only [hfp, default_bucket_bytes key.alg ha, hpw] at h
   generalize hpb : encode (Cbor.map [(Cbor.ofInt 1, Cbor.ofInt key.alg)]) = pb at h
   cases htb : tobe k (Wire.mk (some pb) (some (fillUnprotected unprot key)) payload none none none) none ext with
   | err e => simp [htb] at h
@@ -188,11 +188,8 @@ theorem auth4_roundtrip (k : Kind) (hk : k = .sign1 ∨ k = .mac0) (payload ext 
         rcases hk with rfl | rfl <;> rfl
       have hnot2 : (k == Kind.encrypt0 || k == Kind.encrypt) = false := by
         rcases hk with rfl | rfl <;> rfl
-      have hpay : payloadFromWire .raw payload (zeroPayload .raw) = .ok (.bytes (nonEmpty payload)) := by
-        cases payload with
-        | none => rfl
-        | some l => cases l <;> rfl
-      refine ⟨⟨k, some pm, uh, .bytes (nonEmpty payload),
+      have hpay := hpf
+      refine ⟨⟨k, some pm, uh, pv',
         some { prot := some pb, unprot := uh, payload := payload, auth := some sig }⟩, _, hmar, ?_, rfl, rfl, rfl, rfl, rfl, ?_, rfl⟩
       · unfold unmarshal
         rw [henc4, hc1]
@@ -203,6 +200,30 @@ theorem auth4_roundtrip (k : Kind) (hk : k = .sign1 ∨ k = .mac0) (payload ext 
           rw [← htb]; unfold tobe; rfl
         rw [htb2]
         exact hcorr tb sig hsig
+
+
+/-- **COSE_Sign1 / COSE_Mac0 produced with default headers are accepted back** (tagged form): the decoder
+    returns the very protected bytes, payload bytes and signature/tag that were produced, the payload field holds
+    the original bytes, and verification succeeds with any `check` that accepts what `auth` makes. -/
+theorem auth4_roundtrip (k : Kind) (hk : k = .sign1 ∨ k = .mac0) (payload ext : Option Bytes) (unprot : Hdr)
+    (key vkey : KeyView) (auth : Bytes → Res Bytes) (check : Bytes → Bytes → Res Unit)
+    (hcorr : SigCorrect auth check) (hvk : vkey.alg = key.alg) (ha : key.alg ≠ 0)
+    (har : -2147483648 ≤ key.alg ∧ key.alg ≤ 2147483647)
+    (m1 : Msg) (h : produceAuth ⟨k, none, unprot, .bytes payload, none⟩ key auth ext = .ok m1)
+    (w : Wire) (hw : m1.mm = some w) (u : Cbor) (hu : hdrCbor w.unprot = some u)
+    (u' : Cbor) (heq : encode u' = encode u) (huw : WF u')
+    (hud : depth u' + 2 < maxNesting) (uh : Hdr) (huf : hdrField u' = .ok uh)
+    (hpl : ∀ x, payload = some x → x.length < two64) (hsl : ∀ x, w.auth = some x → x.length < two64) :
+    ∃ bytes m2 w2, marshal k w = some bytes ∧ unmarshal k .raw bytes = .ok m2 ∧ m2.mm = some w2 ∧
+      w2.prot = w.prot ∧ w2.payload = payload ∧ w2.auth = w.auth ∧
+      m2.payload = .bytes (nonEmpty payload) ∧
+      verifyAuth m2 vkey check ext = .ok () ∧ m2.unprot = uh := by
+  have hpay : payloadFromWire .raw payload (zeroPayload .raw) = .ok (.bytes (nonEmpty payload)) := by
+    cases payload with
+    | none => rfl
+    | some l => cases l <;> rfl
+  exact auth4_roundtrip_gen k hk (.bytes payload) (.bytes (nonEmpty payload)) .raw payload ext unprot key vkey auth check
+    hcorr hvk ha har rfl hpay m1 h w hw u hu u' heq huw hud uh huf hpl hsl
 
 /-- the wire struct kept by `WithSign` / `Compute` carries the filled unprotected map -/
 theorem produceAuth_wire_unprot (m : Msg) (key : KeyView) (auth : Bytes → Res Bytes) (ext : Option Bytes) (m1 : Msg)
@@ -226,6 +247,44 @@ theorem produceAuth_wire_unprot (m : Msg) (key : KeyView) (auth : Bytes → Res 
     · cases h
     · cases h
 
+/-- general form of the round trip with an arbitrary (flat) unprotected map in any entry order and any payload kind -/
+theorem auth4_roundtrip_any_order_gen (k : Kind) (hk : k = .sign1 ∨ k = .mac0) (pv pv' : PVal) (mode : PMode)
+    (payload ext : Option Bytes) (unprot : Hdr)
+    (key vkey : KeyView) (auth : Bytes → Res Bytes) (check : Bytes → Bytes → Res Unit)
+    (hcorr : SigCorrect auth check) (hvk : vkey.alg = key.alg) (ha : key.alg ≠ 0)
+    (har : -2147483648 ≤ key.alg ∧ key.alg ≤ 2147483647)
+    (hpw : payloadToWire pv = .ok payload) (hpf : payloadFromWire mode payload (zeroPayload mode) = .ok pv')
+    (m1 : Msg) (h : produceAuth ⟨k, none, unprot, pv, none⟩ key auth ext = .ok m1)
+    (w : Wire) (hw : m1.mm = some w)
+    (hok : ∀ kv ∈ fillUnprotected unprot key, EntryOk kv)
+    (hnd : ((fillUnprotected unprot key).map (·.1)).Nodup)
+    (hlen : (fillUnprotected unprot key).length ≤ maxElems)
+    (hpl : ∀ x, payload = some x → x.length < two64) (hsl : ∀ x, w.auth = some x → x.length < two64) :
+    ∃ bytes m2 w2 uh, marshal k w = some bytes ∧ unmarshal k mode bytes = .ok m2 ∧ m2.mm = some w2 ∧
+      w2.prot = w.prot ∧ w2.payload = payload ∧ w2.auth = w.auth ∧
+      m2.payload = pv' ∧
+      verifyAuth m2 vkey check ext = .ok () ∧ m2.unprot = some uh ∧
+      ∀ l, uh.lookup l = ((fillUnprotected unprot key).lookup l).map normV := by
+  let fm := fillUnprotected unprot key
+  have hwu : w.unprot = some fm := produceAuth_wire_unprot _ key auth ext m1 h w hw
+  have hp := sortM_perm fm
+  have hok' : ∀ kv ∈ sortM fm, EntryOk kv := fun kv hh => hok kv (hp.subset hh)
+  obtain ⟨hwf, hdepth⟩ := sorted_entries_wf fm hok hnd hlen
+  obtain ⟨_, _, _, hof, hcm⟩ := entries_wf (sortM fm) hok'
+  have hnd_enc : ((encodePairs (fm.map entryCbor)).map (·.1)).Nodup := by
+    rw [map_entryCbor_keys]; exact encoded_labels_nodup fm (fun kv hh => (hok kv hh).1) hnd
+  have henc : encode (.map ((sortM fm).map entryCbor)) = encode (.map (fm.map entryCbor)) :=
+    (encode_map_perm (hp.symm.map entryCbor) hnd_enc).symm
+  have hu : hdrCbor w.unprot = some (.map (fm.map entryCbor)) := by
+    rw [hwu]; simp only [hdrCbor, CMap.toCbor, cmapPairs_eq fm hok, Option.map_some]
+  have huf : hdrField (.map ((sortM fm).map entryCbor)) = .ok (some ((sortM fm).map entryNorm)) := by
+    simp only [hdrField, untag, hof, hcm]
+  obtain ⟨bytes, m2, w2, h1, h2, h3, h4, h5, h6, h7, h8, h9⟩ :=
+    auth4_roundtrip_gen k hk pv pv' mode payload ext unprot key vkey auth check hcorr hvk ha har hpw hpf m1 h w hw _ hu _ henc hwf
+      (by unfold maxNesting; omega) _ huf hpl hsl
+  refine ⟨bytes, m2, w2, (sortM fm).map entryNorm, h1, h2, h3, h4, h5, h6, h7, h8, h9, fun l => ?_⟩
+  rw [lookup_entryNorm, lookup_perm hp hnd]
+
 /-- **COSE_Sign1 / COSE_Mac0 round trip, any unprotected header map**: for every payload, external data, key and
     every unprotected map (after the library added the kid) with distinct in-range labels and scalar / list values —
     *in whatever order a Go map presents its entries* — the produced message is decoded back with byte-identical
@@ -246,24 +305,48 @@ theorem auth4_roundtrip_any_order (k : Kind) (hk : k = .sign1 ∨ k = .mac0) (pa
       m2.payload = .bytes (nonEmpty payload) ∧
       verifyAuth m2 vkey check ext = .ok () ∧ m2.unprot = some uh ∧
       ∀ l, uh.lookup l = ((fillUnprotected unprot key).lookup l).map normV := by
-  let fm := fillUnprotected unprot key
-  have hwu : w.unprot = some fm := produceAuth_wire_unprot _ key auth ext m1 h w hw
-  have hp := sortM_perm fm
-  have hok' : ∀ kv ∈ sortM fm, EntryOk kv := fun kv hh => hok kv (hp.subset hh)
-  obtain ⟨hwf, hdepth⟩ := sorted_entries_wf fm hok hnd hlen
-  obtain ⟨_, _, _, hof, hcm⟩ := entries_wf (sortM fm) hok'
-  have hnd_enc : ((encodePairs (fm.map entryCbor)).map (·.1)).Nodup := by
-    rw [map_entryCbor_keys]; exact encoded_labels_nodup fm (fun kv hh => (hok kv hh).1) hnd
-  have henc : encode (.map ((sortM fm).map entryCbor)) = encode (.map (fm.map entryCbor)) :=
-    (encode_map_perm (hp.symm.map entryCbor) hnd_enc).symm
-  have hu : hdrCbor w.unprot = some (.map (fm.map entryCbor)) := by
-    rw [hwu]; simp only [hdrCbor, CMap.toCbor, cmapPairs_eq fm hok, Option.map_some]
-  have huf : hdrField (.map ((sortM fm).map entryCbor)) = .ok (some ((sortM fm).map entryNorm)) := by
-    simp only [hdrField, untag, hof, hcm]
-  obtain ⟨bytes, m2, w2, h1, h2, h3, h4, h5, h6, h7, h8, h9⟩ :=
-    auth4_roundtrip k hk payload ext unprot key vkey auth check hcorr hvk ha har m1 h w hw _ hu _ henc hwf
-      (by unfold maxNesting; omega) _ huf hpl hsl
-  refine ⟨bytes, m2, w2, (sortM fm).map entryNorm, h1, h2, h3, h4, h5, h6, h7, h8, h9, fun l => ?_⟩
-  rw [lookup_entryNorm, lookup_perm hp hnd]
+  have hpay : payloadFromWire .raw payload (zeroPayload .raw) = .ok (.bytes (nonEmpty payload)) := by
+    cases payload with
+    | none => rfl
+    | some l => cases l <;> rfl
+  exact auth4_roundtrip_any_order_gen k hk (.bytes payload) (.bytes (nonEmpty payload)) .raw payload ext unprot key vkey auth check
+    hcorr hvk ha har rfl hpay m1 h w hw hok hnd hlen hpl hsl
+
+/-- **typed payloads** (a claims map, a key, any label map with scalar / list values): the produced COSE_Sign1 /
+    COSE_Mac0 decodes in typed mode, verifies, and the decoded payload answers every look-up with the decoded form of
+    the original value — e.g. a CWT's claims come back with the same exp / nbf / iat / iss / aud / cti. -/
+theorem auth4_roundtrip_typed (k : Kind) (hk : k = .sign1 ∨ k = .mac0) (pmap : CMap) (ext : Option Bytes) (unprot : Hdr)
+    (key vkey : KeyView) (auth : Bytes → Res Bytes) (check : Bytes → Bytes → Res Unit)
+    (hcorr : SigCorrect auth check) (hvk : vkey.alg = key.alg) (ha : key.alg ≠ 0)
+    (har : -2147483648 ≤ key.alg ∧ key.alg ≤ 2147483647)
+    (hokp : ∀ kv ∈ pmap, EntryOk kv) (hndp : (pmap.map (·.1)).Nodup) (hlenp : pmap.length ≤ maxElems)
+    (m1 : Msg) (h : produceAuth ⟨k, none, unprot, .typed (some pmap), none⟩ key auth ext = .ok m1)
+    (w : Wire) (hw : m1.mm = some w)
+    (hok : ∀ kv ∈ fillUnprotected unprot key, EntryOk kv)
+    (hnd : ((fillUnprotected unprot key).map (·.1)).Nodup)
+    (hlen : (fillUnprotected unprot key).length ≤ maxElems)
+    (hpl : ∀ x, encodeCMap pmap = some x → x.length < two64) (hsl : ∀ x, w.auth = some x → x.length < two64) :
+    ∃ bytes m2 pm' uh, marshal k w = some bytes ∧ unmarshal k .typed bytes = .ok m2 ∧
+      m2.payload = .typed (some pm') ∧ (∀ l, pm'.lookup l = (pmap.lookup l).map normV) ∧ pm'.length = pmap.length ∧
+      verifyAuth m2 vkey check ext = .ok () ∧ m2.unprot = some uh ∧
+      ∀ l, uh.lookup l = ((fillUnprotected unprot key).lookup l).map normV := by
+  obtain ⟨b, pm', henc, hdec, hl, hlook⟩ := cmap_roundtrip pmap hokp hndp hlenp
+  have hpw : payloadToWire (.typed (some pmap)) = .ok (some b) := by simp only [payloadToWire, henc]
+  have hbne : b ≠ [] := by
+    intro hb
+    subst hb
+    simp only [encodeCMap, CMap.toCbor, cmapPairs_eq pmap hokp, Option.map_some, Option.some.injEq] at henc
+    have hlen0 := congrArg List.length henc
+    simp only [encode, List.length_append, List.length_nil] at hlen0
+    have := head_length_pos 5 (pmap.map entryCbor).length
+    omega
+  have hpf : payloadFromWire .typed (some b) (zeroPayload .typed) = .ok (.typed (some pm')) := by
+    cases b with
+    | nil => exact absurd rfl hbne
+    | cons x r => simp only [payloadFromWire, hdec]
+  obtain ⟨bytes, m2, w2, uh, h1, h2, _, _, _, _, h7, h8, h9, h10⟩ :=
+    auth4_roundtrip_any_order_gen k hk (.typed (some pmap)) (.typed (some pm')) .typed (some b) ext unprot key vkey auth check
+      hcorr hvk ha har hpw hpf m1 h w hw hok hnd hlen (fun x hx => hpl x (by cases hx; exact henc)) hsl
+  exact ⟨bytes, m2, pm', uh, h1, h2, h7, hlook, hl, h8, h9, h10⟩
 
 end Cose.Props.C01
